@@ -108,8 +108,8 @@ Definition run_prog (args : list str) : str :=
   | _ => s2l "?"
   end.
 
-(* the documented policy (Deps/Policy.v) for the first dependency() call of the build file,
-   when it names exactly one dependency: what it must return, "-" when not applicable *)
+(* the documented policy (Deps/Policy.policyN) for the first dependency() call of the build
+   file: what it must return, "-" when not applicable *)
 Fixpoint first_policy (w : world) (o : opts) (st : state) (ops : list op) : str :=
   match ops with
   | [] => [45]
@@ -123,12 +123,11 @@ Fixpoint first_policy (w : world) (o : opts) (st : state) (ops : list op) : str 
       | Ok st' => first_policy w o st' r
       | Err => [45]
       end
-  | OpLookup [c :: n] kw :: _ =>
+  | OpLookup names kw :: _ =>
       match k_fallback kw with
       | Some ([] :: _) => [45]
-      | _ => render_outcome (policy w o st (c :: n) kw)
+      | _ => render_outcome (policyN w o st names kw)
       end
-  | OpLookup _ _ :: _ => [45]
   end.
 
 Definition run_policy (args : list str) : str :=
